@@ -343,6 +343,45 @@ def r054(report, g, lm, pm, both, slash_tokens, prevs, table):
     return rule
 
 
+def r055(report, lm):
+    """the manual peek for `/` must see through exactly the characters the
+    underlying lexer ignores"""
+    rule = report.rule('R05.5', 'the `/` peek skips exactly the white space '
+                       'the lexer ignores (INITIAL and regex state)',
+                       floor=2)
+    methods = lexer_methods(lm)
+    token_fn = methods.get('_token')
+    skip = None
+    for n in ast.walk(token_fn):
+        if isinstance(n, ast.While) and isinstance(n.test, ast.Compare) and \
+                len(n.test.ops) == 1 and isinstance(
+                    n.test.ops[0], ast.In) and isinstance(
+                    n.test.comparators[0], ast.Constant) and isinstance(
+                    n.test.comparators[0].value, str):
+            skip = n.test.comparators[0].value
+    if skip is None:
+        raise AnalysisError('Lexer._token: the white-space peek loop '
+                            '`while char in <constant>` was not found')
+    ignore = lm.ignore.get('INITIAL', '')
+    # line terminators are tokens of their own (handled by the loop)
+    missing = sorted(set(ignore) - set(skip) - set('\n\r\u2028\u2029'))
+    rule.check(not missing, 'peek skips fewer white-space characters than '
+               't_ignore', 'Lexer._token peek set %r vs t_ignore' % skip,
+               'before deciding division/regex, _token looks past %r only; '
+               'the lexer itself also ignores %s: `x = <U+00A0>/re/` is '
+               'handed to the INITIAL lexer and read as a division' % (
+                   skip, ' '.join('U+%04X' % ord(c) for c in missing)),
+               where='lexers/es5.py:Lexer._token')
+    rign = lm.ignore.get('regex', '')
+    missing = sorted(set(skip) - set(rign))
+    rule.check(not missing, 'regex state ignore covers the peek set',
+               't_regex_ignore %r' % rign,
+               'characters skipped by the peek but not ignored in the '
+               'regex state: %r' % missing,
+               where='lexers/es5.py:Lexer.t_regex_ignore')
+    return rule
+
+
 def run(report, index, tier):
     M = models(index)
     g, lm = M.grammar, M.lexmodel
@@ -360,6 +399,7 @@ def run(report, index, tier):
     headers = r052(report, g, lm)
     r053(report, g, lm, only_div, only_re, headers)
     r054(report, g, lm, pm, both, slash_tokens, prevs, table)
+    r055(report, lm)
     report.not_decided.append(
         'paren-stack bookkeeping for arbitrarily deep nesting beyond the '
         'explored contexts (runtime stack discipline)')
